@@ -35,6 +35,16 @@ Conforms ==
   \* whatever the table holds for a non-canonical code, it stays inside the vector
   /\ x < Pow4(K) => t.pos[x + 1] < t.count
 
+\* column names returned by the Python binding's get_header(), line k = list of names (letter bytes); empty file: not checked.
+\* Walking the codes in order ties each name to the canonical k-mer of the same rank - also for k beyond the CLI's range.
+ImplHdr == ndJsonDeserialize(IOEnv.VHDR)
+LetterByte == <<65, 67, 71, 84>>
+NameOf(xx, kk) == [i \in 1..kk |-> LetterByte[Digits(xx, kk)[i] + 1]]
+HeaderConforms ==
+  K <= Len(ImplHdr) =>
+    /\ x < Pow4(K) /\ IsCanon(Digits(x, K)) => rank < Len(ImplHdr[K]) /\ ImplHdr[K][rank + 1] = NameOf(x, K)
+    /\ x = Pow4(K) => Len(ImplHdr[K]) = rank
+
 KEnv == {atoi(IOEnv.VK)}
 KEnvAll == 1..atoi(IOEnv.VK)
 =============================================================================
